@@ -6,31 +6,42 @@
 
    phase: "accepting" -> "serving" (a client is connected, its code runs) -> "accepting" ...; the served code may change the
    directory any number of times and may end by returning or by raising.
-   Fix_RestorePerConnection = FALSE is the design that goes back only when the loop is left. *)
+   Fix_RestorePerConnection = FALSE is the design that goes back only when the loop is left.
+
+   OneShot = TRUE is the same script started through socket//installvia=<host gateway>: every socket gateway gets a server of its own
+   that runs inside the host gateway's process, serves one connection and ends (startserver(loop=FALSE)); the next one is started in
+   the same process and remembers the directory it finds as the one to go back to.  Fix_RestoreOneShot = FALSE leaves that path
+   without going back. *)
 EXTENDS Integers, Sequences, TLC
-CONSTANTS Dirs, Launch, MaxConns, Fix_RestorePerConnection
+CONSTANTS Dirs, Launch, MaxConns, Fix_RestorePerConnection, OneShot, Fix_RestoreOneShot
 ASSUME Launch \in Dirs
 
-VARIABLES phase, cwd, served, startedIn, looping
-vars == <<phase, cwd, served, startedIn, looping>>
+VARIABLES phase, cwd, served, startedIn, looping, execpath
+vars == <<phase, cwd, served, startedIn, looping, execpath>>
 
-Init == phase = "accepting" /\ cwd = Launch /\ served = 0 /\ startedIn = <<>> /\ looping = TRUE
+Init == phase = "accepting" /\ cwd = Launch /\ served = 0 /\ startedIn = <<>> /\ looping = TRUE /\ execpath = Launch
 
 Accept == /\ phase = "accepting" /\ looping /\ served < MaxConns
           /\ phase' = "serving" /\ served' = served + 1
           /\ startedIn' = Append(startedIn, cwd)              \* what the new gateway observes first
-          /\ UNCHANGED <<cwd, looping>>
-Chdir(d) == phase = "serving" /\ cwd' = d /\ UNCHANGED <<phase, served, startedIn, looping>>
+          /\ UNCHANGED <<cwd, looping, execpath>>
+Chdir(d) == phase = "serving" /\ cwd' = d /\ UNCHANGED <<phase, served, startedIn, looping, execpath>>
 \* the connection's code returns or raises (both paths reach the statement after the try block)
 ConnectionEnds == /\ phase = "serving"
-                  /\ phase' = "accepting"
-                  /\ cwd' = IF Fix_RestorePerConnection THEN Launch ELSE cwd
-                  /\ UNCHANGED <<served, startedIn, looping>>
+                  /\ IF OneShot THEN /\ phase' = "left" /\ looping' = FALSE            \* "if not loop: break", then the finally block
+                                      /\ cwd' = IF Fix_RestoreOneShot THEN execpath ELSE cwd
+                     ELSE /\ phase' = "accepting" /\ UNCHANGED looping
+                          /\ cwd' = IF Fix_RestorePerConnection THEN execpath ELSE cwd
+                  /\ UNCHANGED <<served, startedIn, execpath>>
+\* installvia: the host gateway starts the next one-connection server in the same process
+StartServer == /\ OneShot /\ phase = "left" /\ served < MaxConns
+               /\ phase' = "accepting" /\ looping' = TRUE /\ execpath' = cwd
+               /\ UNCHANGED <<cwd, served, startedIn>>
 \* KeyboardInterrupt / SystemExit leave the loop: the finally block runs
-Leave == /\ looping /\ looping' = FALSE /\ phase' = "left"
-         /\ cwd' = IF Fix_RestorePerConnection THEN cwd ELSE Launch
-         /\ UNCHANGED <<served, startedIn>>
-Next == Accept \/ (\E d \in Dirs : Chdir(d)) \/ ConnectionEnds \/ Leave
+Leave == /\ ~OneShot /\ looping /\ looping' = FALSE /\ phase' = "left"
+         /\ cwd' = IF Fix_RestorePerConnection THEN cwd ELSE execpath
+         /\ UNCHANGED <<served, startedIn, execpath>>
+Next == Accept \/ (\E d \in Dirs : Chdir(d)) \/ ConnectionEnds \/ Leave \/ StartServer
 Spec == Init /\ [][Next]_vars
 
 TypeOK == phase \in {"accepting", "serving", "left"} /\ cwd \in Dirs /\ served \in 0..MaxConns
